@@ -757,21 +757,35 @@ def digest_width(repo, res):
 )
 def rule_scoped_names(repo, res):
     ig = repo.mod("ffcx.codegeneration.integral_generator")
-    for q, required in (("IntegralGenerator.generate_piecewise_partition", True), ("IntegralGenerator.generate_varying_partition", True)):
+    from ..absint import Interp as _I0, Node as _N0, Raised as _R0, _PyCall as _PC0
+    from ..lnodes_model import load_classes as _lc0
+
+    for q in ("IntegralGenerator.generate_piecewise_partition", "IntegralGenerator.generate_varying_partition"):
         f = ig.func(q)
         res.functions.add(f.key)
         key = f"{f.key}:name-has-rule-id"
         res.ob(key)
-        rule_param = f.params[1]
-        calls = [c for c in calls_in(f.node) if (call_name(c) or "").endswith("generate_partition")]
-        if len(calls) != 1:
-            raise AnalysisError(f"{q}: generate_partition call not found")
-        sl = Slicer(f.node)
-        t = sl.text(calls[0].args[0])
-        if not re.search(rf"\{{{rule_param}\.id\(\)\}}", t):
-            res.fail(key, f"{q} names its temporaries `{ast.unparse(sl.defs.get(getattr(calls[0].args[0], 'id', ''), [calls[0].args[0]])[0])[:70]}` "
-                     "without the quadrature rule's id: the counter restarts for every rule, so a kernel with two rules "
-                     "(dx(degree=2) + dx(degree=4)) declares the same identifier twice", ig.line(f.node))
+        # interpreted for two rules of one kernel: the base name handed to generate_partition (the temporaries are numbered <base>_0, <base>_1, ... from
+        # zero for every call) must differ between the rules
+        bases = []
+        try:
+            for rid in ("r1", "r2"):
+                it0 = _I0(repo, _lc0(repo), primary="ffcx.codegeneration.integral_generator")
+                it0.obj_classes = {"IntegralGenerator": "ffcx.codegeneration.integral_generator"}
+                rl = _N0("QuadratureRule", id=_PC0(lambda _r=rid: _r))
+                got = []
+                gen = _N0("IntegralGenerator", ir=_N0("IntegralIR", expression=_N0("ExpressionIR", integrand={("triangle", rl): {"factorization": "F"}})),
+                          generate_partition=_PC0(lambda sym, F, mode, rule_, dom, _g=got: _g.append(sym) or ([], [])))
+                it0.call_f(f, [gen, rl, "triangle"])
+                if len(got) != 1 or not isinstance(got[0], _N0) or "name" not in got[0].f:
+                    raise AnalysisError(f"{q}: generate_partition is not called once with a symbol")
+                bases.append(got[0].f["name"])
+        except _R0 as e:
+            res.fail(key, f"{q} raises ({e.what}) on a sample rule", ig.line(f.node))
+            continue
+        if bases[0] == bases[1]:
+            res.fail(key, f"{q} names its temporaries `{bases[0]}_<n>` for two different quadrature rules of one kernel: the counter restarts for every rule, so a "
+                     "kernel with two rules (dx(degree=2) + dx(degree=4)) declares the same identifier twice", ig.line(f.node))
     f = ig.func("IntegralGenerator.generate_block_parts")
     key = f"{f.key}:fw-cache-key"
     res.ob(key)
